@@ -6,6 +6,7 @@ package main
 //   ops:  g<r>  reader r calls get()            G<r>  same, and r stops at the gate between the
 //         r<r>  release r's gate (it enters Cond.Wait)  availability check and Cond.Wait
 //         b<r>  reader r returns its event      h     wait further heartbeat rounds
+//         k<r>  reader r changes the kind of the event it holds to child-parent (processor.Spawn)
 // result: one block per executed op (ops that do not apply to the reader's status are dropped):
 //         <op> (o <r> got <ev> | o <r> gate | o <r> wait | o <r> spin)… i <inUse> <slowWaiters> <condWaiters> ;
 // Every block is observed after the pool's (shortened) heartbeat had time to run at least twice and
@@ -316,6 +317,14 @@ func (run *poolRun) apply(op string) bool {
 			}
 			time.Sleep(50 * time.Microsecond)
 		}
+	case 'k':
+		// the holder turns its event into a split parent, as processor.Spawn does
+		if st != "got" || r.ev == nil {
+			run.mu.Unlock()
+			return false
+		}
+		r.ev.SetChildParentKind()
+		run.mu.Unlock()
 	case 'b':
 		if st != "got" {
 			run.mu.Unlock()
@@ -452,6 +461,30 @@ func genPoolGated(w *bufio.Writer, rng *hx.Rng, tier, cmd string) {
 			}
 		}
 	}
+	// events whose kind changes between get and back (split parents): more of them than the capacity,
+	// then the pool must still serve a full round; with and without waiters, heartbeat on and off
+	for _, k := range []string{"lowmem", "std", "lowmem-nohb", "std-nohb"} {
+		for c := 1; c <= 3; c++ {
+			var ops []string
+			for round := 0; round < 2; round++ {
+				for i := 0; i < c; i++ {
+					ops = append(ops, fmt.Sprintf("g%d", i))
+				}
+				ops = append(ops, fmt.Sprintf("g%d", c)) // waits
+				for i := 0; i < c; i++ {
+					ops = append(ops, fmt.Sprintf("k%d", i), fmt.Sprintf("b%d", i))
+				}
+				ops = append(ops, fmt.Sprintf("k%d", c), fmt.Sprintf("b%d", c))
+			}
+			for i := 0; i < c; i++ {
+				ops = append(ops, fmt.Sprintf("g%d", i))
+			}
+			for i := 0; i < c; i++ {
+				ops = append(ops, fmt.Sprintf("b%d", i))
+			}
+			fmt.Fprintf(w, "%s %s %d %d %s\n", cmd, k, c, c+1, strings.Join(ops, " "))
+		}
+	}
 	// exhaustive small scope: capacity 1, three readers, every op sequence of length L after "g0"
 	alpha := []string{"g1", "G1", "g2", "G2", "r1", "r2", "b0", "b1", "b2", "g0"}
 	L := 2
@@ -502,6 +535,9 @@ func genPoolGated(w *bufio.Writer, rng *hx.Rng, tier, cmd string) {
 			case 4, 5:
 				ops = append(ops, fmt.Sprintf("r%d", r))
 			case 6, 7, 8, 9:
+				if rng.Chance(1, 3) {
+					ops = append(ops, fmt.Sprintf("k%d", r))
+				}
 				ops = append(ops, fmt.Sprintf("b%d", r))
 			default:
 				ops = append(ops, "h")
@@ -529,6 +565,9 @@ func genPoolGated(w *bufio.Writer, rng *hx.Rng, tier, cmd string) {
 			case 5:
 				ops = append(ops, fmt.Sprintf("r%d", r))
 			case 6, 7, 8:
+				if rng.Chance(1, 3) {
+					ops = append(ops, fmt.Sprintf("k%d", r))
+				}
 				ops = append(ops, fmt.Sprintf("b%d", r))
 			default:
 				ops = append(ops, "h")
